@@ -218,6 +218,31 @@ func c17Fixtures(seed uint64) *c17fx {
 			g = gen.Shape(r, gen.Kinds7[r.Intn(7)], layout, gen.SmallInt, gen.ShapeOpts{CoordFn: finite, Big: true})
 		}
 		g.SRID = []int{0, 4326}[r.Intn(2)]
+		if i%5 == 2 {
+			// rings that are closed only nearly: the last vertex one unit in the last
+			// place off the first one, with other extra ordinates (a "helpful" callee
+			// that snaps it shut writes to the caller's geometry)
+			nearly := func(ring [][]float64) {
+				if n := len(ring); n >= 4 {
+					last := ring[n-1]
+					last[0] = math.Nextafter(last[0], math.Inf(1))
+					for k := 2; k < len(last); k++ {
+						last[k] += 0.5
+					}
+				}
+			}
+			for _, ring := range g.C2 {
+				nearly(ring)
+			}
+			for _, pg := range g.C3 {
+				for _, ring := range pg {
+					nearly(ring)
+				}
+			}
+			if g.Kind == model.LinearRing {
+				nearly(g.C1)
+			}
+		}
 		t := g.BuildFlat()
 		if g.Kind != model.Collection && i%3 != 0 {
 			// storage with spare capacity behind every slice, filled with canaries
